@@ -19,7 +19,7 @@ open VaxisModel VaxisModel.Model.Sgr VaxisModel.Gen VaxisModel.Spec VaxisModel.L
 /-- The arities of NewStyledString before the repair. -/
 def ssCfgOld : Cfg :=
   ⟨SgrCases.ssParseLabels, [(4, [1, 2], true), (38, [3, 5], false), (48, [3, 5], false), (58, [3, 5], false)],
-   SgrCases.ssParseUlSubs⟩
+   SgrCases.ssParseUlSubs, []⟩
 
 def ssSeqOld (dflt s : Style) (ps : Seq) : Except Panic Style :=
   if ps.isEmpty then .ok dflt else ssLoop ssCfgOld dflt (ps.map (·.map tokN)) s
